@@ -247,6 +247,38 @@ def check_func_eval(prog, rep, qual='cross._func_eval'):
         rep.violation('P-count-cache', qual, 'info["m_cache"] += len(I) - '
                       'len(I_new)', 'cache-hit accounting missing or changed',
                       line=fn.node.lineno, file=mod.path)
+    # every path of the cached branch that returns the values counts the
+    # request exactly once: info['m'] and info['m_cache'] each get one
+    # increment (a batch that is answered entirely from the cache included)
+    for path in ps:
+        end = path[-1].node if path and path[-1].kind == 'end' else None
+        if not (isinstance(end, ast.Return) and end.value is not None):
+            continue
+        gs_ = [(e.node, e.pol) for e in path
+               if e.kind == 'test' and isinstance(e.node, ast.expr)]
+        cached = paths.holds(gs_, 'cache', ast.IsNot, 'None')
+        if not cached:
+            continue
+        n_m = n_c = 0
+        for e in path:
+            if e.kind == 'stmt' and isinstance(e.node, ast.AugAssign) and \
+                    isinstance(e.node.op, ast.Add):
+                if _is_sub(e.node.target, info, 'm'):
+                    n_m += 1
+                if _is_sub(e.node.target, info, 'm_cache'):
+                    n_c += 1
+        desc = 'path[%s]' % ','.join(
+            str(getattr(e.node, 'lineno', '?')) + ('' if e.pol is None
+                                                   else '+-'[not e.pol])
+            for e in path if e.kind == 'test')
+        ok_ = n_m == 1 and n_c == 1
+        rep.add('P-count-cache', qual, 'cached request answered on %s: one '
+                'increment of info["m"] and of info["m_cache"]' % desc,
+                'ok' if ok_ else 'violation',
+                '' if ok_ else 'on this successful path of the cached branch '
+                'info["m"] is increased %d time(s) and info["m_cache"] %d '
+                'time(s): requests served from the cache are not counted'
+                % (n_m, n_c), line=end.lineno, file=mod.path)
     # cache stores pair I_new[k] with y_new[k] of one enumeration
     for node in ast.walk(fn.node):
         if isinstance(node, ast.For) and isinstance(node.iter, ast.Call) and \
@@ -778,4 +810,92 @@ def check_param_forwarding(prog, rep, callers=None, rule='P-forward-name'):
                         'passing it: the callee silently falls back to its '
                         'default' % (fn.qualname, p, callee.qualname),
                         line=node.lineno, file=mod.path)
+    return n
+
+
+# ---------------------------------------------------------------------------
+# P-none-vs-zero: an optional numeric parameter (default None) is tested with
+# ``is None`` / ``is not None``; a truth-value test treats the valid value 0
+# like "not given"
+NONE_ZERO_ALLOWED = {
+    ('cross.cross', 'm'): 'budget 0 is outside the quantifier of the '
+                          'properties (budgets from 1); "no budget" and 0 '
+                          'are both mapped to None on purpose',
+}
+
+
+def _truth_tested(test):
+    """Names whose truth value decides the test (bare names under not / and /
+    or)."""
+    out = []
+    if isinstance(test, ast.Name):
+        out.append(test)
+    elif isinstance(test, ast.UnaryOp) and isinstance(test.op, ast.Not):
+        out += _truth_tested(test.operand)
+    elif isinstance(test, ast.BoolOp):
+        for v in test.values:
+            out += _truth_tested(v)
+    return out
+
+
+def check_none_vs_zero(prog, rep, modules=None, rule='P-none-vs-zero'):
+    n = 0
+    for fn in prog.all_functions():
+        if isinstance(fn.node, ast.Lambda):
+            continue
+        if modules is not None and fn.module.name not in modules:
+            continue
+        dflt = fn.defaults()
+        opt = {p for p in fn.all_params
+               if isinstance(dflt.get(p), ast.Constant) and
+               dflt[p].value is None}
+        if not opt:
+            continue
+        # numeric use: operand of arithmetic, or argument of int() / float()
+        numeric = set()
+        for node in ast.walk(fn.node):
+            if isinstance(node, ast.BinOp) and isinstance(
+                    node.op, (ast.Add, ast.Sub, ast.Mult, ast.Div,
+                              ast.FloorDiv, ast.Pow, ast.Mod)):
+                for x in (node.left, node.right):
+                    if isinstance(x, ast.Name) and x.id in opt:
+                        numeric.add(x.id)
+            if isinstance(node, ast.Call) and isinstance(node.func, ast.Name) \
+                    and node.func.id in ('int', 'float') and node.args and \
+                    isinstance(node.args[0], ast.Name) and \
+                    node.args[0].id in opt:
+                numeric.add(node.args[0].id)
+            if isinstance(node, ast.Compare) and len(node.ops) == 1 and \
+                    isinstance(node.ops[0], (ast.Lt, ast.LtE, ast.Gt,
+                                             ast.GtE)):
+                for x in (node.left, node.comparators[0]):
+                    if isinstance(x, ast.Name) and x.id in opt:
+                        numeric.add(x.id)
+        for p in sorted(numeric):
+            n += 1
+            bad = None
+            for node in ast.walk(fn.node):
+                t = node.test if isinstance(node, (ast.If, ast.IfExp,
+                                                   ast.While, ast.Assert)) \
+                    else None
+                if t is None:
+                    continue
+                if any(x.id == p for x in _truth_tested(t)):
+                    bad = node
+            allowed = NONE_ZERO_ALLOWED.get((fn.qualname, p))
+            construct = 'optional numeric parameter %s is tested with ' \
+                        '"is None", not by its truth value' % p
+            if bad is None:
+                rep.ok(rule, fn.qualname, construct)
+            elif allowed:
+                rep.ok(rule, fn.qualname, construct,
+                       detail='allowed: ' + allowed)
+            else:
+                rep.violation(
+                    rule, fn.qualname, construct,
+                    'the test "%s" treats %s = 0 like %s = None although the '
+                    'parameter is used as a number: the valid value 0 '
+                    'silently selects the "not given" behaviour'
+                    % (src(fn.module, bad.test), p, p),
+                    line=bad.lineno, file=fn.module.path)
     return n
